@@ -11,6 +11,7 @@
 //	l3 withdraw <zone>                 the parent removes the delegation (old servers stay alive)
 //	l3 repoint <zone> <same|new> <nsttl> <dsttl>   the parent re-points the zone to new servers with new data
 //	l3 behave <zone> <honest|nsauth|nschange>       what the (current) child says about itself
+//	l3 qrace <zone> [cd]               sr.<zone> is asked while the zone's lease runs out (self-referral race)
 //	l3 audit                           only run the state audit
 //
 // Every op ends with the state audit (stored leases against what the parents
@@ -102,6 +103,12 @@ type scenario struct {
 	prevRefs map[uint64]int
 	queries  int
 	prefetch int
+
+	// race: while set, the incarnation's server moves the virtual clock past its own
+	// lease end just before it answers an `sr.` query with a self-referral — the
+	// delegation expires while its servers are still being asked (l3 qrace).
+	race    *inst
+	raceLin int
 }
 
 // grantOver12h: some incarnation of the zone is delegated with min(NS, DS) TTL ≥ 12 h,
@@ -300,6 +307,12 @@ func (s *scenario) tamper(i *inst, q dns.Question, honest *dns.Msg) *dns.Msg {
 	first := strings.SplitN(qn, ".", 2)[0]
 	glue := &dns.A{Hdr: dns.RR_Header{Name: i.nsHost, Rrtype: dns.TypeA, Class: dns.ClassINET, Ttl: hugeTTL}, A: i.srv.IP}
 	if dns.IsSubDomain(i.name, qn) && (first == "sr" || first == "up") && honest != nil {
+		if s.race == i && first == "sr" && i.hasBound[s.raceLin] {
+			s.race = nil
+			if d := i.bound[s.raceLin] + slack + 500*time.Millisecond - s.vnow(); d > 0 {
+				s.p.Advance(d)
+			}
+		}
 		m := new(dns.Msg)
 		m.MsgHdr = honest.MsgHdr
 		m.Question = honest.Question
@@ -673,10 +686,40 @@ func execQuery(s *scenario, f []string) vlib.Res {
 		}
 		impl = fmt.Sprintf("rcode=%s an=%d old=%d new=%d", dns.RcodeToString[resp.Rcode], len(resp.Answer), olds, news)
 	}
+	tags := "nt,l3"
+	if resp == nil || resp.Rcode == dns.RcodeServerFailure {
+		first := strings.SplitN(lcn(f[2]), ".", 2)[0]
+		if first != "sr" && first != "up" {
+			tags += ",servfail"
+			// "sdns follows the parent as soon as that lease ends": past the lease end of a
+			// withdrawn / re-pointed delegation the name must resolve to what the parent now
+			// says. Judged only when three attempts (10 virtual seconds apart, so no cached
+			// failure is replayed) all fail — a single upstream timeout raises nothing.
+			past := false
+			for _, i := range s.insts {
+				if i.withdrawn && i.hasBound[lin] && vq >= i.bound[lin]+slack && dns.IsSubDomain(i.name, lcn(f[2])) {
+					past = true
+				}
+			}
+			if tr := s.w.Truth(f[2], qt); past && verdict == "ok" && (tr.Kind == "answer" || tr.Kind == "nodata" || tr.Kind == "nxdomain") && tr.Status != l3.Bogus {
+				failed := 1
+				for try := 0; try < 2; try++ {
+					s.quiesce()
+					s.p.Advance(10 * time.Second)
+					if r2 := s.p.Query(f[2], qt, fl); r2 == nil || r2.Rcode == dns.RcodeServerFailure {
+						failed++
+					}
+				}
+				if failed == 3 {
+					verdict = fmt.Sprintf("FAIL sig=l3/reply/not-following-parent q=%s/%s want=%s", lcn(f[2]), f[3], tr.Kind)
+				}
+			}
+		}
+	}
 	if a := s.audit(); verdict == "ok" {
 		verdict = a
 	}
-	return vlib.Res{Impl: impl, Oracle: verdict, Tags: "nt,l3"}
+	return vlib.Res{Impl: impl, Oracle: verdict, Tags: tags}
 }
 
 func execL3(f []string) vlib.Res {
@@ -736,6 +779,10 @@ func execL3(f []string) vlib.Res {
 		par := i.parent
 		for k := i.idx; k <= len(s.names); k++ {
 			old := s.current(chainNames[k-1])
+			if s.oob && k == 2 && i.idx == 1 {
+				// the sibling zone hosting the victim's name servers moves with its parent
+				s.host = s.addInst(9, s.host.gen+1, par, 3600, 3600, false, "new")
+			}
 			nsTTL, dsTTL := old.nsTTL, old.dsTTL
 			mode := "new"
 			if k == i.idx {
@@ -760,6 +807,31 @@ func execL3(f []string) vlib.Res {
 			i.z.Add(fmt.Sprintf("%s %d IN NS nsx.%s", i.name, hugeTTL, i.name), fmt.Sprintf("nsx.%s %d IN A %s", i.name, hugeTTL, i.srv.IP))
 		}
 		return vlib.Res{Impl: "ok", Oracle: s.audit(), Tags: "l3"}
+	case "qrace":
+		// l3 qrace <zone> [cd]: ask the zone's (old) servers for sr.<zone>; they let their own
+		// lease run out and then answer with a self-referral carrying a one-week TTL.
+		var target *inst
+		lin := 0
+		if len(f) > 3 && f[3] == "cd" {
+			lin = 1
+		}
+		for _, i := range s.named(f[2]) {
+			if i.hasBound[lin] && (target == nil || i.gen < target.gen) {
+				target = i
+			}
+		}
+		if target == nil || target.idx == 0 {
+			return vlib.Res{Impl: "nozone", Oracle: "-"}
+		}
+		s.quiesce()
+		s.race, s.raceLin = target, lin
+		g := []string{"l3", "q", "sr." + target.name, "A"}
+		if lin == 1 {
+			g = append(g, "cd")
+		}
+		res := execQuery(s, g)
+		s.race = nil
+		return res
 	case "audit":
 		return vlib.Res{Impl: "ok", Oracle: s.audit(), Tags: "l3"}
 	}
@@ -971,6 +1043,12 @@ func genL3Case(r *vlib.R, n int, emit func(string)) int {
 		if r.Chance(1, 2) {
 			e("l3 q " + V + " NS" + fl())
 			e("l3 q sr." + V + " A" + fl())
+		}
+		if r.Chance(1, 3) {
+			// the lease runs out while the old servers are being asked; they answer with a self-referral
+			e("l3 qrace " + V)
+			e("l3 q www." + V + " A")
+			e("l3 q long." + V + " A do")
 		}
 		// just before the lease end (no judgement possible: the old data may legitimately still be served)
 		if r.Chance(1, 2) {
